@@ -194,6 +194,7 @@ func Harness() vh.Harness {
 		law(102, last.evidence, "")
 		law(103, last.evidence, "")
 		law(105, last.evidence, "")
+		law(106, last.evidence, "")
 		sig := ""
 		if last.multiTier {
 			sig = SigFallThrough
@@ -222,6 +223,16 @@ func Harness() vh.Harness {
 				continue
 			}
 			evicted, pipelined, discarded := 0, 0, 0
+			failedPipe := 0
+			for _, c := range choices {
+				for _, g := range c.Groups {
+					for _, a := range g.Atts {
+						if a.Failed {
+							failedPipe++
+						}
+					}
+				}
+			}
 			for _, e := range w.Trace {
 				switch {
 				case e.Kind == 3:
@@ -243,10 +254,25 @@ func Harness() vh.Harness {
 			case pipelined > 0:
 				cls = "pipelined-without-eviction"
 			}
+			if failedPipe > 0 {
+				cls += "+pipeline-fault"
+			}
+			refusedHit := 0
+			for _, t := range spec.Refuse {
+				for _, e := range w.Trace {
+					if e.Kind == 0 && e.Status == sched.SReleasing && e.Task == t {
+						refusedHit++
+						break
+					}
+				}
+			}
+			if refusedHit > 0 {
+				cls += "+evict-refused"
+			}
 			kind := fmt.Sprintf("cycle/actions=%v/tiers=%d/%s", spec.Actions, len(spec.Tiers), cls)
 			desc := map[string]any{"nodes": len(spec.Nodes), "queues": len(spec.Queues), "jobs": len(spec.Jobs), "tasks": len(spec.Tasks),
-				"tiers": spec.Tiers, "choices": len(choices), "evicted": evicted, "pipelined": pipelined, "undone": discarded}
-			emit(fmt.Sprintf("cycle-%d", i), 1, spec.Enc(), kind, evicted+discarded > 0, desc)
+				"tiers": spec.Tiers, "choices": len(choices), "evicted": evicted, "pipelined": pipelined, "undone": discarded, "failed_pipelines": failedPipe, "faults": len(spec.Faults), "refuse": len(spec.Refuse)}
+			emit(fmt.Sprintf("cycle-%d", i), 1, spec.Enc(), kind, evicted+discarded+failedPipe > 0, desc)
 			// votes on the same cluster
 			for k := 0; k < 2; k++ {
 				in, d, nt := GenVote(r, spec)
